@@ -395,7 +395,7 @@ func compWS(o *out, seed uint64, tier string) {
 	//     boundaries (the last match may end a few bytes before or after the text does), closed by Close
 	//     and by Flush
 	{
-		text := genData(3, 9, 3000)
+		text := genData(1, 9, 3000) // periodic text: the last match runs up to (or a little beyond) its end
 		for _, base := range []int{15, 270, 525} {
 			for d := -8; d <= 8; d++ {
 				if base+d < 1 {
